@@ -64,6 +64,11 @@ def gen_ops(ctx):
             for H in range(0, small + 1):
                 for A in ([0] + [pick_align(r, kind) for _ in range(2 if not th else 4)]):
                     ops.append(line(W, H, A, 1, 0, "d", 0, 0, 0, "-"))
+        # allocation starting directly behind the leading guard page (mode 0, residue 0): an access BEFORE the buffer faults
+        # (e.g. a negative multi-row move of the 1-D iterator landing one row too high)
+        for W in range(1, 5):
+            for H in range(1, 5):
+                ops.append(line(W, H, 0, 0, 0, "d", 0, 0, 0, r.choice(["-", "-", "U", "L", "T"])))
         # every alignment on a few shapes, both allocator modes, all residues
         for A in ALIGNS:
             if A % g: continue
@@ -171,7 +176,7 @@ def run(ctx, ops=None):
     regen_dependency(ctx, "C03", C03_syms)
     obligations, discharged = vlib.standard_proof_steps(ctx)
     with concurrent.futures.ThreadPoolExecutor(len(GROUPS)) as ex:
-        futs = {g: ex.submit(vlib.compile_harness, ctx, "harness/C01/main.cpp", "C01_g%d" % g, (), (), True, "-O1", ["KGROUP=%d" % g]) for g in GROUPS}
+        futs = {g: ex.submit(vlib.compile_harness, ctx, "harness/C01/main.cpp", "C01_g%d" % g, (), (), True, "-O0", ["KGROUP=%d" % g]) for g in GROUPS}
         bins = {g: f.result() for g, f in futs.items()}
     samples, distinct = [], 0
     bad = [(g, e) for g, (b, e) in bins.items() if b is None]
@@ -199,7 +204,8 @@ def run(ctx, ops=None):
              "`img` = image constructed / filled / copied / assigned / recreated with every shape 0..9 (0..40 thorough) x 14 alignments x allocator address residues, "
              "allocation placed so that it ends at (or starts after) a guard page, every pixel of the image and of a random derived view (flip / rotate / transpose / subimage / subsample, "
              "and for homogeneous kinds nth_channel_view / kth_channel_view anywhere in the list: on top of every stepping transformation x every channel) read and written through "
-             "view(x,y), row_begin, begin()[i], xy_at and the pixel algorithms; `buf` = interleaved_view over caller buffers of exactly h*rowbytes; "
+             "view(x,y), row_begin, begin()[i], xy_at, the 1-D iterator after negative and positive multi-row moves onto every pixel (end()-k, (begin()+j)-(j-i), rbegin()+k) "
+             "and the pixel algorithms; `buf` = interleaved_view over caller buffers of exactly h*rowbytes; "
              "`pbuf` = planar_rgb_view over one caller buffer of exactly 3*h*rowbytes with derived views incl. channel views; non-trivial = non-empty image",
         samples=samples, distinct_nontrivial=distinct, assumptions=ASSUME, trusted_base=vlib.TRUSTED_BASE,
         extra={"input_distribution": ctx.cov.get("input_distribution", {}), "organisations": sorted(KINDS)})
